@@ -268,3 +268,125 @@ def inputs_for(g, rnd, n_exh_cap=400, exh_len=5, n_rand=40, n_mut=80, long_targe
         k = tuple(s)
         if k not in seen: seen.add(k); out.append(s)
     return out
+
+# ------------------------------------------------------------------ decorations and profiles
+
+def decorate(g, rnd, typed=0.25, dflt=0.25, vtypes=True, strings=0.2, ctx=0.0):
+    """vary value types, default functors, typed terms, string terms, contextual functors (structure unchanged)"""
+    g = clone(g)
+    if vtypes:
+        g.vtypes = [rnd.choice(['V', 'V', 'V', 'W', 'I']) for _ in g.nts]
+    used = {t.text for t in g.terms}
+    for j, t in enumerate(g.terms):
+        if t.kind == 'c' and rnd.random() < strings:
+            for _ in range(10):
+                txt = ''.join(rnd.choice('ABCDEFGHKLMNPQRSTUVWXYZ_') for _ in range(rnd.choice([2, 2, 3, 4])))
+                if txt not in used and not any(u.startswith(txt) or txt.startswith(u) for u in used if len(u) > 1):
+                    used.discard(t.text); used.add(txt); g.terms[j] = Term('s', txt, t.prec, t.assoc); break
+        if rnd.random() < typed:
+            g.terms[j].typed = True
+    for i, r in enumerate(g.rules):
+        vt = g.vtypes[r.lhs]
+        if rnd.random() < dflt:
+            if vt in ('V', 'W'):
+                g.rules[i] = Rule(r.lhs, r.rhs, r.prec, 'd')
+            elif len(r.rhs) == 1 and r.rhs[0][0] == 'n' and g.vtypes[r.rhs[0][1]] == 'I':
+                g.rules[i] = Rule(r.lhs, r.rhs, r.prec, 'd')
+        elif ctx and rnd.random() < ctx:
+            g.rules[i] = Rule(r.lhs, r.rhs, r.prec, 'x')
+    g.note += '+decorated'
+    return g
+
+OPCHARS = '+-*/^%<>&|=!~?:@'
+
+def expr_grammar(rnd):
+    """E -> E op E | pre E | E post | ( E ) | atom with random precedence / associativity / explicit [n]"""
+    nbin = rnd.randint(1, 5); npre = rnd.choice([0, 0, 1, 2]); npost = rnd.choice([0, 0, 1])
+    ops = rnd.sample(OPCHARS, nbin + npre + npost)
+    terms = []; rules = []
+    def prec(): return rnd.choice([0, 1, 1, 2, 2, 3, 4, -1, -2])
+    def assoc(): return rnd.choice(['n', 'l', 'l', 'r'])
+    atom = len(terms); terms.append(Term('c', 'i'))
+    rules.append(Rule(0, [('t', atom)]))
+    if rnd.random() < 0.6:
+        lp = len(terms); terms.append(Term('c', '(')); rp = len(terms); terms.append(Term('c', ')'))
+        rules.append(Rule(0, [('t', lp), ('n', 0), ('t', rp)]))
+    for k in range(nbin):
+        j = len(terms); terms.append(Term('c', ops[k], prec(), assoc()))
+        rules.append(Rule(0, [('n', 0), ('t', j), ('n', 0)], prec=(rnd.choice([1, 2, 3, 5, -1]) if rnd.random() < 0.2 else None)))
+    for k in range(npre):
+        ch = ops[nbin + k]
+        # a prefix operator may reuse a binary operator's character (unary minus)
+        if nbin and rnd.random() < 0.5:
+            j = 1 + (2 if len(rules) > 1 and terms[1].text == '(' else 0) + rnd.randrange(nbin) if False else None
+        j = None
+        if nbin and rnd.random() < 0.5:
+            cands = [q for q, t in enumerate(terms) if t.text in ops[:nbin]]
+            j = rnd.choice(cands)
+        if j is None:
+            j = len(terms); terms.append(Term('c', ch, prec(), assoc()))
+        rules.append(Rule(0, [('t', j), ('n', 0)], prec=(rnd.choice([3, 4, 5, 6]) if rnd.random() < 0.6 else None)))
+    for k in range(npost):
+        j = len(terms); terms.append(Term('c', ops[nbin + npre + k], prec(), assoc()))
+        rules.append(Rule(0, [('n', 0), ('t', j)], prec=(rnd.choice([3, 4, 5]) if rnd.random() < 0.3 else None)))
+    if rnd.random() < 0.25:
+        # a rule without any term (juxtaposition) : E -> E E
+        rules.append(Rule(0, [('n', 0), ('n', 0)], prec=(rnd.choice([1, 2, 3]) if rnd.random() < 0.5 else None)))
+    rnd.shuffle(rules)
+    order = list(range(len(terms))); rnd.shuffle(order)   # term listing order must not matter
+    inv = {o: n for n, o in enumerate(order)}
+    terms2 = [terms[o] for o in order]
+    rules2 = [Rule(r.lhs, [(s if s[0] != 't' else ('t', inv[s[1]])) for s in r.rhs], r.prec, r.ftor) for r in rules]
+    return Grammar(['E'], terms2, rules2, 0, note='expr')
+
+def dangling_else(rnd):
+    pe = rnd.choice([0, 0, 1, 2]); ae = rnd.choice(['n', 'l', 'r'])
+    pi = rnd.choice([0, 0, 1, 2]); ai = rnd.choice(['n', 'l', 'r'])
+    terms = [Term('c', 'i', pi, ai), Term('c', 'e', pe, ae), Term('c', 'x')]
+    rules = [Rule(0, [('t', 0), ('n', 0)], prec=rnd.choice([None, None, 1, 2, 3])),
+             Rule(0, [('t', 0), ('n', 0), ('t', 1), ('n', 0)]), Rule(0, [('t', 2)])]
+    rnd.shuffle(rules)
+    return Grammar(['S'], terms, rules, 0, note='dangling-else')
+
+def with_precedence(g, rnd):
+    """random precedence/associativity sprinkled over a generic grammar that has S/R conflicts"""
+    g = clone(g)
+    for j, t in enumerate(g.terms):
+        if rnd.random() < 0.6: g.terms[j] = Term(t.kind, t.text, rnd.choice([-1, 0, 1, 2, 3]), rnd.choice(['n', 'l', 'r']), t.name, t.typed)
+    for i, r in enumerate(g.rules):
+        if rnd.random() < 0.2: g.rules[i] = Rule(r.lhs, r.rhs, rnd.choice([1, 2, 3, -1]), r.ftor)
+    g.note += '+prec'
+    return g
+
+ERR_CORE = [
+    ('stmt-list', 'L->eps | L I\nI->x ; | error ;'),
+    ('stmt-list-paren', 'L->eps | L I\nI->x ; | error ; | ( L ) | ( error )'),
+    ('readme-shape', 'X->eps | X E ; | X error ;\nE->E + E | n'),
+    ('error-first', 'S->error a | b S | c\n'),
+    ('error-last', 'S->a error | a b S | c\n'),
+    ('nested-levels', 'P->B | P B\nB->{ L } | { error }\nL->eps | L s ; | L error ; | L B'),
+    ('error-only-rule', 'S->L\nL->I | L , I\nI->a | error'),
+    ('two-sync', 'S->eps | S T\nT->a b ; | error ; | error .'),
+]
+
+def err_core():
+    out = []
+    for item in ERR_CORE:
+        name, spec = item[0], item[1]
+        g = simple(spec); g.note = 'errcore:' + name
+        out.append(g)
+    return out
+
+def add_error_rules(g, rnd):
+    g = clone(g)
+    for _ in range(rnd.choice([1, 1, 2, 3])):
+        cands = [r for r in g.rules if len(r.rhs) >= 1]
+        if not cands: break
+        r = rnd.choice(cands)
+        k = rnd.randrange(len(r.rhs) + 1)
+        pre = list(r.rhs[:k]) if rnd.random() < 0.7 else []
+        post = [s for s in r.rhs[k:] if s[0] == 't'][-1:] if rnd.random() < 0.8 else []
+        if rnd.random() < 0.2 and g.terms: post = [('t', rnd.randrange(len(g.terms)))]
+        g.rules.insert(rnd.randrange(len(g.rules) + 1), Rule(r.lhs, pre + [('e',)] + post))
+    g.note += '+error'
+    return g
